@@ -1,4 +1,5 @@
 import ZenonVerif.Lemmas.Consensus
+import ZenonVerif.Lemmas.BeforeTime
 /-
 C05 — momentums come only from the elected pillar; the schedule is deterministic: property theorems only.
 `sort` is ANY function returning a sorted permutation (Go's `sort.Sort` is not stable), `perm` is ANY
@@ -356,6 +357,140 @@ theorem producer_complete (c : Ctx) (elected : Nat → Option (List Bytes)) (tic
 theorem producer_inside_slot_refused :
     getMomentumProducer ⟨0, 10, 3⟩ (fun _ => some [[1], [2], [3]]) (15 * nsPerSec) = .error .noSlotStartsHere ∧
     getMomentumProducer ⟨0, 10, 3⟩ (fun _ => some [[1], [2], [3]]) (10 * nsPerSec) = .ok [2] := by decide
+
+/-! ## d. the proof momentum: `GetMomentumBeforeTime` = "last momentum with timestamp < t" -/
+
+/-- partial correctness for EVERY instant (also sub-second ones) on a chain whose timestamps do not decrease:
+    whenever the estimate-and-search code returns, it returns what the specification says. -/
+theorem before_time_sound (ts : List Int) (tNs : Int) (hm : Mono ts) :
+    (∀ h, getMomentumBeforeTime ts tNs = .found h → beforeSpec ts tNs = some h) ∧
+    (getMomentumBeforeTime ts tNs = .none → beforeSpec ts tNs = none) := by
+  unfold getMomentumBeforeTime
+  cases hh : ts.head? with
+  | none => simp
+  | some g =>
+    cases hl : ts.getLast? with
+    | none => simp
+    | some f =>
+      obtain ⟨eg, hne⟩ := head?_eq_T hh
+      have ef := getLast?_eq_T hl
+      simp only
+      by_cases c1 : g * nsPerSec ≥ tNs
+      · rw [if_pos c1]
+        exact ⟨fun h hc => (by cases hc), fun _ => beforeSpec_eq_none hm hne (by rw [← eg]; exact c1)⟩
+      · rw [if_neg c1]
+        by_cases c2 : f * nsPerSec < tNs
+        · rw [if_pos c2]
+          refine ⟨fun h hc => ?_, fun hc => (by cases hc)⟩
+          cases hc
+          exact beforeSpec_eq_some hm hne (Nat.le_refl _) (by rw [← ef]; exact c2) (Or.inl rfl)
+        · rw [if_neg c2]
+          have hw := btLoop_good (tSec := tNs / nsPerSec) hm (show T ts 1 * nsPerSec < tNs by rw [← eg]; omega)
+            (show T ts ts.length * nsPerSec ≥ tNs by rw [← ef]; omega) hne
+            (2 * ts.length + 4)
+            (if ts.length > toUInt64 (f - tNs / nsPerSec) then ts.length - toUInt64 (f - tNs / nsPerSec) else 1)
+            none none (fun _ h => by cases h) (fun _ h => by cases h)
+          constructor
+          · intro h hc
+            rw [hc] at hw
+            rcases hw with hw | hw | hw
+            · cases hw
+            · cases hw
+            · exact beforeSpec_eq_some hm hw.1 hw.2.1 hw.2.2.1 hw.2.2.2
+          · intro hc
+            rw [hc] at hw
+            rcases hw with hw | hw | hw
+            · cases hw
+            · cases hw
+            · exact absurd hw (by simp [GoodBT])
+
+/-- total correctness for whole-second instants (every instant the consensus code asks for: tick boundaries of a
+    whole-second genesis) on chains with non-decreasing, non-negative timestamps below 2^62 and fewer than 2^62
+    momentums: the code returns exactly the specification's answer — it neither fails nor spins. -/
+theorem before_time_eq_spec (ts : List Int) (tSec : Int) (hm : Mono ts) (hne : ts ≠ [])
+    (hr : ∀ h, 1 ≤ h → h ≤ ts.length → 0 ≤ T ts h) (ht : tSec < two62) (hH : (ts.length : Int) < two62) :
+    getMomentumBeforeTime ts (tSec * nsPerSec) =
+      (match beforeSpec ts (tSec * nsPerSec) with | some h => BT.found h | none => BT.none) := by
+  have hs := before_time_sound ts (tSec * nsPerSec) hm
+  have hnf : NoFail (getMomentumBeforeTime ts (tSec * nsPerSec)) := by
+    unfold getMomentumBeforeTime
+    cases hh : ts.head? with
+    | none => cases ts with
+      | nil => exact absurd rfl hne
+      | cons x xs => simp at hh
+    | some g =>
+      cases hl : ts.getLast? with
+      | none => cases ts with
+        | nil => exact absurd rfl hne
+        | cons x xs => simp at hl
+      | some f =>
+        obtain ⟨eg, hne'⟩ := head?_eq_T hh
+        have ef := getLast?_eq_T hl
+        simp only
+        by_cases c1 : g * nsPerSec ≥ tSec * nsPerSec
+        · rw [if_pos c1]; simp [NoFail]
+        · rw [if_neg c1]
+          by_cases c2 : f * nsPerSec < tSec * nsPerSec
+          · rw [if_pos c2]; simp [NoFail]
+          · rw [if_neg c2]
+            have hdiv : tSec * nsPerSec / nsPerSec = tSec := Int.mul_ediv_cancel _ (by unfold nsPerSec; omega)
+            rw [hdiv]
+            apply btLoop_nofail hm (by rw [← eg]; omega) (by rw [← ef]; omega) hne' hr ht hH
+            · intro _ h; cases h
+            · intro _ h; cases h
+            · intro _; split <;> omega
+            · simp only [mu]; omega
+  cases hres : getMomentumBeforeTime ts (tSec * nsPerSec) with
+  | found h => rw [hs.1 h hres]
+  | none => rw [hs.2 hres]
+  | err => rw [hres] at hnf; exact absurd rfl hnf.2
+  | hang => rw [hres] at hnf; exact absurd rfl hnf.1
+
+/-- negative witness for "whole-second": for an instant half a second after a momentum the estimate can land on
+    that momentum with `timeSec - block.ts = 0` and the real loop never advances (no caller passes such an instant:
+    proof times are tick boundaries, the RPC takes whole seconds). -/
+theorem before_time_subsecond_hangs :
+    getMomentumBeforeTime [100, 101, 102, 103] (102 * nsPerSec + 500000000) = .hang := by decide
+
+/-- the hypotheses are satisfiable and the answer is the expected one on a chain with gaps -/
+example : getMomentumBeforeTime [100, 150, 160, 470, 480] (470 * nsPerSec) = .found 3 := by decide
+
+/-- T5 `schedule_function_of_proof_state` (chain part): the proof momentum of a tick is determined by the chain
+    prefix up to it. If a second chain (another node, the same node after a restart or a reorganisation) has the
+    same first h timestamps and either ends there or continues with a momentum at or after the proof time, it
+    selects the same proof height. -/
+theorem proof_momentum_prefix_determined (ts1 ts2 : List Int) (tNs : Int) (hm2 : Mono ts2) (h : Nat)
+    (hspec : beforeSpec ts1 tNs = some h) (hagree : ts2.take h = ts1.take h) (hlen : h ≤ ts2.length)
+    (hnext : h = ts2.length ∨ T ts2 (h + 1) * nsPerSec ≥ tNs) : beforeSpec ts2 tNs = some h := by
+  obtain ⟨a1, a2, a3, _⟩ := beforeSpec_some hspec
+  apply beforeSpec_eq_some hm2 a1 hlen _ hnext
+  have e : T ts2 h = T ts1 h := by
+    unfold T
+    have h1 : (ts2.take h).getD (h - 1) 0 = ts2.getD (h - 1) 0 := by
+      simp only [List.getD_eq_getElem?_getD, List.getElem?_take]; rw [if_pos (by omega)]
+    have h2 : (ts1.take h).getD (h - 1) 0 = ts1.getD (h - 1) 0 := by
+      simp only [List.getD_eq_getElem?_getD, List.getElem?_take]; rw [if_pos (by omega)]
+    rw [← h1, ← h2, hagree]
+  rw [e]; exact a3
+
+/-- T5 (cache part): the election result is cached under the proof momentum's hash. If every cached entry was
+    produced by the computation for its key (the cache is only written by `generateProducers`), then the answer from
+    the cache equals the answer computed cold, and the updated cache keeps that property — whatever was inserted,
+    rolled back or restarted in between (`DeleteMomentum` never touches the cache). -/
+theorem cached_election_eq_recomputed (cache : Bytes → Option (List Bytes)) (compute : Bytes → List Bytes)
+    (hc : ∀ h r, cache h = some r → r = compute h) (proofHash : Bytes) :
+    (generateProducersCached cache compute proofHash).1 = compute proofHash ∧
+    ∀ h r, (generateProducersCached cache compute proofHash).2 h = some r → r = compute h := by
+  unfold generateProducersCached
+  cases hcp : cache proofHash with
+  | some r => exact ⟨hc _ _ hcp, hc⟩
+  | none =>
+    refine ⟨rfl, ?_⟩
+    intro h r hr
+    simp only at hr
+    split at hr
+    · rename_i heq; cases hr; rw [heq]
+    · exact hc h r hr
 
 /-! ## e. momentum verifier -/
 
